@@ -313,6 +313,43 @@ class StructIndex:
         base = re.sub(r"<.*$", "", t).split("::")[-1].strip()
         return self.enums.get(base, 0)
 
+    def variant_index(self, tag):
+        """index of `Enum::Variant` in the declaration order of a repository enum (None if the
+        enum is unknown or its name is declared twice with different variants)"""
+        parts = [x for x in re.sub(r"<.*?>", "", tag).split("::") if x]
+        if len(parts) < 2:
+            return None
+        enum, variant = parts[-2], parts[-1]
+        if getattr(self, "enum_names", None) is None:
+            import os
+            self.enum_names = {}
+            pat = re.compile(r"\benum\s+(\w+)\s*(?:<[^>{]*>)?\s*\{(.*?)\n\}", re.S)
+            for root, _, files in os.walk(self.repo_src):
+                for f in files:
+                    if not f.endswith(".rs"):
+                        continue
+                    try:
+                        txt = open(os.path.join(root, f), errors="replace").read()
+                    except OSError:
+                        continue
+                    for m in pat.finditer(txt):
+                        body = re.sub(r"//[^\n]*", "", m.group(2))
+                        body = re.sub(r"#\[[^\]]*\]", "", body)
+                        prev = None
+                        while prev != body:
+                            prev = body
+                            body = re.sub(r"\([^()]*\)|\{[^{}]*\}", "", body)
+                        names = [x.strip().split("=")[0].strip() for x in body.split(",")]
+                        names = [n for n in names if re.match(r"^[A-Z]\w*$", n)]
+                        if m.group(1) in self.enum_names and self.enum_names[m.group(1)] != names:
+                            self.enum_names[m.group(1)] = None
+                        else:
+                            self.enum_names.setdefault(m.group(1), names)
+        names = self.enum_names.get(enum)
+        if names and variant in names:
+            return names.index(variant)
+        return None
+
     def name(self, type_str, idx):
         fields = self._fields(type_str)
         if fields and idx < len(fields):
@@ -337,11 +374,14 @@ class Event:
 
 
 class Evaluation:
-    def __init__(self, fn, structs, k=2, ghosts=None, follow_panics=False, watch=None):
+    def __init__(self, fn, structs, k=2, ghosts=None, follow_panics=False, watch=None, counters=None):
         self.fn = fn
         self.structs = structs
         self.k = k
         self.ghosts = ghosts or {}  # name -> compiled regex on callee text
+        # ghost counters: name -> f(event, evaluation) returning None (no match) or the condition
+        # under which this call counts; env["#name"] is the number of counted calls on the path so far
+        self.counters = counters or {}
         self.watch = set(watch or [])  # source variable names whose assignments become events
         self.events = []
         self.returns = []  # (node, reach, env)
@@ -725,6 +765,9 @@ class Evaluation:
             last = re.sub(r"<.*?>", "", tag).split("::")[-1]
             if last in known:
                 return z3.BitVecVal(known[last], 64)
+            vi = self.structs.variant_index(tag)
+            if vi is not None:
+                return z3.BitVecVal(vi, 64)
             return Opaque(f"disc:{tag}")
         if isinstance(v, Opaque):
             d = z3.BitVec(f"disc({v.label})", 64)
@@ -891,6 +934,8 @@ class Evaluation:
                 env = {}
                 for g in self.ghosts:
                     env["@" + g] = z3.BoolVal(False)
+                for g in self.counters:
+                    env["#" + g] = z3.BitVecVal(0, 32)
                 reach = z3.BoolVal(True)
             else:
                 inc = []
@@ -916,11 +961,18 @@ class Evaluation:
                                 self.events.append(Event(node, bb, layer, f"assign({nm})", f"assign({nm})",
                                                          f"assign({nm})@bb{bb}", [val, old], [dty, dty], reach,
                                                          dict(env), st[3], ""))
-                    if len(dest.projs) == 1 and dest.projs[0][0] == "deref" and isinstance(env.get(dest.local), Opaque):
-                        # store through a pointer a call returned (`*next_off = ..`): visible as an event
+                    if dest.projs and dest.projs[0][0] == "deref" and len(dest.projs) <= 2 and \
+                            isinstance(env.get(dest.local, self.init_value(dest.local)), Opaque):
+                        # store through a pointer (`*next_off = ..`, `self.current_log_id = ..`): visible as an event
+                        base = env.get(dest.local, self.init_value(dest.local))
                         for nm in self.local_names(dest.local)[:1]:
-                            self.events.append(Event(node, bb, layer, f"store(*{nm})", f"store(*{nm})",
-                                                     f"store(*{nm})@bb{bb}", [val, env.get(dest.local)], ["", ""], reach,
+                            fld = ""
+                            if len(dest.projs) == 2 and dest.projs[1][0] == "field":
+                                fld = "." + str(self.structs.name(self.fn.types.get(dest.local, ""), dest.projs[1][1]))
+                            elif len(dest.projs) == 2:
+                                continue
+                            self.events.append(Event(node, bb, layer, f"store(*{nm}{fld})", f"store(*{nm}{fld})",
+                                                     f"store(*{nm}{fld})@bb{bb}", [val, base], ["", ""], reach,
                                                      dict(env), st[3], ""))
                     self.write_place(env, dest, val)
                 elif st[0] == "setdiscr":
@@ -1034,6 +1086,11 @@ class Evaluation:
                 for g, rx in self.ghosts.items():
                     if rx(ev, self):
                         env["@" + g] = z3.BoolVal(True)
+                for g, fcount in self.counters.items():
+                    c = fcount(ev, self)
+                    if c is not None:
+                        ev.counts_before = dict(getattr(ev, "counts_before", {}), **{g: env["#" + g]})
+                        env["#" + g] = z3.If(c, env["#" + g] + 1, env["#" + g]) if not z3.is_true(c) else env["#" + g] + 1
                 for label, nxt in succs.items():
                     edges.append((nxt, reach, env))
             elif kind == "drop":
